@@ -133,6 +133,55 @@ def _shard_sigs(args):
     return sorted(acc.violations)
 
 
+def _child(conn, modname, shard):
+    try:
+        acc = _worker((modname, shard))
+        conn.send(("ok", acc))
+    except BaseException as e:  # noqa: BLE001
+        import traceback
+
+        try:
+            conn.send(("err", f"crashed: {type(e).__name__}: {e} :: {traceback.format_exc()[-600:]}"))
+        except Exception:
+            pass
+    finally:
+        conn.close()
+
+
+def _run_jobs(ctx, modname, jobs, procs, deadline):
+    """Run every job (kind, index, shard) in its own forked process, at most `procs` at a time.
+    Yields (kind, index, Acc | error string); yields ("cap", None, None) when the deadline passes."""
+    from multiprocessing.connection import wait
+
+    pending = list(reversed(jobs))
+    active = {}  # conn -> (proc, kind, idx)
+    while pending or active:
+        while pending and len(active) < procs:
+            kind, idx, shard = pending.pop()
+            parent, child = ctx.Pipe(duplex=False)
+            p = ctx.Process(target=_child, args=(child, modname, shard), daemon=True)
+            p.start()
+            child.close()
+            active[parent] = (p, kind, idx)
+        remaining = deadline - time.time()
+        if remaining <= 0:
+            for conn, (p, _, _) in active.items():
+                p.kill()
+            yield ("cap", None, None)
+            return
+        ready = wait(list(active.keys()), timeout=min(remaining, 5.0))
+        for conn in ready:
+            p, kind, idx = active.pop(conn)
+            try:
+                status, payload = conn.recv()
+            except (EOFError, OSError):
+                p.join(5)
+                status, payload = "err", f"worker died without a result (exit code {p.exitcode})"
+            conn.close()
+            p.join(30)
+            yield (kind, idx, payload if status == "ok" else str(payload))
+
+
 def run_check(prop: str, tier: str, seed: int, only: str = "", budget: float = 0.0, procs: int = 0):
     from mc.core import Acc
 
@@ -159,41 +208,43 @@ def run_check(prop: str, tier: str, seed: int, only: str = "", budget: float = 0
     probe = [order[0], order[-1]] if len(order) > 1 else [order[0]]
     digests = {}
     harness_errors = []
-    # maxtasksperchild=1: every shard runs in a freshly forked process, so state hidden in the implementation
-    # (module-level caches, objects corrupted in place) never leaks from one shard into another
-    with ctx.Pool(min(procs, len(order) + len(probe)), maxtasksperchild=1) as pool:
-        probe_async = [pool.apply_async(_worker, ((modname, s),)) for s in probe]
-        it = pool.imap(_worker, [(modname, s) for s in order], chunksize=1)
-        for i in range(len(order)):
-            remaining = budget - (time.time() - t0)
-            try:
-                acc = it.next(timeout=max(remaining, 1.0))
-            except mp.TimeoutError:
-                total.cap(f"wall-clock budget {budget:.0f}s hit after {done}/{len(order)} shards")
-                pool.terminate()
-                break
-            except Exception as e:  # noqa: BLE001
-                import traceback
-
-                traceback.print_exc()
-                harness_errors.append(f"shard {order[i]!r} crashed: {type(e).__name__}: {e}")
-                continue
-            digests[i] = acc.digest()
-            total.merge(acc)
-            done += 1
-        else:
-            # determinism probe: the same shard executed twice in different workers
-            for j, a in enumerate(probe_async):
-                try:
-                    acc2 = a.get(timeout=max(budget - (time.time() - t0), 30.0))
-                except Exception as e:  # noqa: BLE001
-                    harness_errors.append(f"determinism probe failed to run: {type(e).__name__}: {e}")
-                    continue
-                idx = 0 if j == 0 else len(order) - 1
-                if idx in digests and digests[idx] != acc2.digest():
-                    harness_errors.append(
-                        f"nondeterminism: shard {probe[j]!r} gave different results in two executions"
-                    )
+    # Every shard runs in a freshly forked process (own process management instead of a Pool: a worker that dies,
+    # e.g. from a segfault inside a native library, is detected at once and reported as a harness error instead of
+    # blocking the run). State hidden in the implementation (module-level caches, objects corrupted in place) can
+    # therefore never leak from one shard into another.
+    jobs = [("shard", i, s) for i, s in enumerate(order)] + [("probe", j, s) for j, s in enumerate(probe)]
+    results = {}
+    capped = False
+    for kind, idx, payload in _run_jobs(ctx, modname, jobs, procs, t0 + budget):
+        if kind == "cap":
+            capped = True
+            break
+        results[(kind, idx)] = payload
+    next_merge = 0
+    for i in range(len(order)):
+        r = results.get(("shard", i))
+        if r is None:
+            continue
+        if isinstance(r, str):
+            harness_errors.append(f"shard {order[i]!r}: {r}")
+            continue
+        digests[i] = r.digest()
+        total.merge(r)
+        done += 1
+    if capped:
+        total.cap(f"wall-clock budget {budget:.0f}s hit after {done}/{len(order)} shards")
+        if tier == "quick":
+            # the quick tier is sized to finish well inside its budget; not finishing means something is stuck
+            harness_errors.append(f"quick tier did not finish within its budget of {budget:.0f}s ({done}/{len(order)} shards)")
+    else:
+        # determinism probe: the same shard executed twice in different processes
+        for j in range(len(probe)):
+            r = results.get(("probe", j))
+            idx = 0 if j == 0 else len(order) - 1
+            if r is None or isinstance(r, str):
+                harness_errors.append(f"determinism probe failed to run: {r}")
+            elif idx in digests and digests[idx] != r.digest():
+                harness_errors.append(f"nondeterminism: shard {probe[j]!r} gave different results in two executions")
     # Sequence probe for state hidden in the implementation (module-level caches, scratch buffers hoisted out of
     # a function, objects shared between calls): a shard must give bit-identical outcomes whether it runs in a
     # fresh process or right after its neighbouring shard (which typically differs in one factor, e.g. the
